@@ -457,26 +457,59 @@ def run(ctx):
 
     # ---- R01.7 unary composition direction
     bits = {}
+    from analysis import loops
+
+    class PSeq(Policy):
+        loop_mode = "widen"
+        max_depth = 4
+
+        def inline_closure(self, closure_path, args, interp, path):
+            return False
+    STORE = ".funcs_to_be_composed(self_)"
     ap = fb.find_bodies(lambda b: b["kind"] == "AssocFn" and b.get("name") == "apply" and (b.get("impl_self_ty") or "").startswith("operators::UnaryOp<"))
     if len(ap) == 1:
-        tys = " ".join(l["ty"] for l in ap[0]["locals"])
-        rev = "std::iter::Rev<std::slice::Iter<" in tys
-        nxt = any(mir.callee_path(t) == "std::iter::Iterator::next" for _, t in mir.calls(ap[0]))
-        if not nxt:
-            chk.unrecognised("R01.7", "apply", "UnaryOp::apply does not iterate with a for loop", loc(ap[0]["span"]))
+        allp = Interp(fb, PSeq()).run(ap[0], [Sym("self_"), Sym("x")])
+        ps = [p for p in allp if p.status not in ("unreachable", "loop-pruned")]
+        dirs = set()
+        for p in ps:
+            if p.status != "return":
+                dirs.add("?%s" % p.status)
+                continue
+            if isinstance(p.result, Sym) and p.result.name == "x":
+                continue        # no function to apply
+            fs = loops.fold_source(p.result, p, allp)
+            if fs is None or len(fs[0]) != 1 or fs[0][0][0] != "src" or fs[0][0][1] != STORE:
+                dirs.add("?%s" % (fs[0] if fs else show(p.result)[:80]))
+            else:
+                dirs.add(fs[0][0][2])
+        if dirs == {"rev"} or dirs == {"fwd"}:
+            bits["apply iterates reversed"] = dirs == {"rev"}
         else:
-            bits["apply iterates reversed"] = rev
+            chk.unrecognised("R01.7", "apply", "UnaryOp::apply is not a fold over the stored functions in one direction: %s" % sorted(dirs), loc(ap[0]["span"]))
     else:
         chk.violation("R01.7", "anchor:apply", "UnaryOp::apply not found")
     aa = fb.find_bodies(lambda b: b["kind"] == "AssocFn" and b.get("name") == "append_after_iter" and (b.get("impl_self_ty") or "").startswith("operators::UnaryOp<"))
     if len(aa) == 1:
-        ch = [t for _, t in mir.calls(aa[0]) if mir.callee_path(t) == "std::iter::Iterator::chain"]
-        if len(ch) == 1:
-            first = ch[0]["func"].get("self_ty") or ""
-            # `other_iter.chain(self...)`: Self of chain is the iterator parameter I
-            bits["append_after puts the new functions first"] = first in ("I",) or not first.startswith("std::iter::Cloned")
+        allp = Interp(fb, PSeq()).run(aa[0], [Sym("self_"), Sym("other")])
+        ps = [p for p in allp if p.status not in ("unreachable", "loop-pruned")]
+        seqs = []
+        for p in ps:
+            hv = [v for k, v in p.heap.items() if k[0] == ("sym", "self_") and k[1] == ("f", "funcs_to_be_composed")]
+            if p.status != "return" or len(hv) != 1:
+                seqs.append([("?", p.status)])
+            else:
+                seqs.append(loops.seq_parts(hv[0], p, aa[0]["path"], 0, allp))
+        full = max(seqs, key=len) if seqs else []
+
+        def subseq(s, f):
+            it = iter(f)
+            return all(any(x == y for y in it) for x in s)
+        NEWFIRST = [("src", "other", "fwd"), ("src", STORE, "fwd")]
+        OLDFIRST = [("src", STORE, "fwd"), ("src", "other", "fwd")]
+        if full in (NEWFIRST, OLDFIRST) and all(subseq(s, full) for s in seqs):
+            bits["append_after puts the new functions first"] = full == NEWFIRST
         else:
-            chk.unrecognised("R01.7", "append", "append_after_iter does not chain two iterators", loc(aa[0]["span"]))
+            chk.unrecognised("R01.7", "append", "append_after_iter does not store new ++ old or old ++ new: %s" % seqs[:3], loc(aa[0]["span"]))
     else:
         chk.violation("R01.7", "anchor:append", "UnaryOp::append_after_iter not found")
     up = fb.find_bodies(lambda b: b["path"].endswith("deep::detail::unparse_raw"))
